@@ -173,7 +173,11 @@ fn drive(seed: u64, nworlds: u64, nframes: u64, out: &str) -> Value {
                 ops += 1;
             }
             let dt = [0, 1, 1, 2, 3, 3, 8, 1000][rng.below(8) as usize];
-            let rec = w.frame(dt);
+            // a panic inside the App is an observation (rejected by the trace spec), not a harness failure
+            let rec = match std::panic::catch_unwind(std::panic::AssertUnwindSafe(|| w.frame(dt))) {
+                Ok(r) => r,
+                Err(_) => { writeln!(f, "{}", json!({"ev":"frame","dt":dt,"A":[-1,-1,-1],"B":[-1,-1,-1],"compA":[0,0],"compB":[0,0],"key":-1,"out":[],"panic":1})).unwrap(); frames += 1; break; }
+            };
             if sample.len() < 4 && frames % 7 == 3 { sample.push(json!({"world": cfg, "frame": rec})); }
             writeln!(f, "{}", rec).unwrap();
             frames += 1;
@@ -202,7 +206,13 @@ fn drive_file(inp: &str, out: &str) -> Value {
         let mut w = new_world(&cfg);
         for op in v["ops"].as_array().unwrap() {
             if op["ev"] == "op" { w.apply_op(op); writeln!(f, "{}", op).unwrap(); ops += 1; }
-            else { let rec = w.frame(op["dt"].as_i64().unwrap()); writeln!(f, "{}", rec).unwrap(); frames += 1; }
+            else {
+                let dt = op["dt"].as_i64().unwrap();
+                match std::panic::catch_unwind(std::panic::AssertUnwindSafe(|| w.frame(dt))) {
+                    Ok(rec) => { writeln!(f, "{}", rec).unwrap(); frames += 1; }
+                    Err(_) => { writeln!(f, "{}", json!({"ev":"frame","dt":dt,"A":[-1,-1,-1],"B":[-1,-1,-1],"compA":[0,0],"compB":[0,0],"key":-1,"out":[],"panic":1})).unwrap(); frames += 1; break; }
+                }
+            }
         }
     }
     f.flush().unwrap();
